@@ -20,7 +20,7 @@ fn model_exe() -> std::path::PathBuf {
 }
 
 /// encode (version, ops) lists with the Coq reference encoder (extracted model, `encode` mode)
-fn encode_all(reqs: &[(u64, Vec<Op>)]) -> Vec<Vec<u8>> {
+pub fn encode_all(reqs: &[(u64, Vec<Op>)]) -> Vec<Vec<u8>> {
     // requests go through a file: writing a large batch into the child's stdin while it fills its stdout would deadlock
     let dir = exe_root().join("harness/target/c10-enc");
     let _ = std::fs::create_dir_all(&dir);
@@ -195,6 +195,22 @@ impl Prop for P {
             (3, Ok(())) => {}
             (1, Err(fst::Error::Fst(RawError::ChecksumMissing))) | (2, Err(fst::Error::Fst(RawError::ChecksumMissing))) => {}
             (_, r) => x = format!("verify() on a version {} file gave {:?}", v, r.map_err(|e| e.to_string())),
+        }
+        // a walk through the public Node accessors (transitions(), find_input, transition(i)) enumerates the same
+        // entries as stream() on files of every version; get_key inverts the map when values increase with keys
+        {
+            let kvs: Vec<(Vec<u8>, u64)> = f.stream().into_byte_vec();
+            if let Err(e) = crate::wrap::node_walk(&f, &kvs, 2000) {
+                x = format!("version {} file: {}", v, e);
+            }
+            if kvs.windows(2).all(|w| w[0].1 < w[1].1) {
+                for (k, val) in kvs.iter().take(400) {
+                    if f.get_key(*val).as_ref() != Some(k) {
+                        x = format!("version {} file: get_key({}) = {:?}, the key stored with that value is {}", v, val, f.get_key(*val).map(|k| hex(&k)), hex(k));
+                    }
+                }
+                crate::common::xcount("old_file_get_key_inverted");
+            }
         }
         // set operations over the old file: union with itself
         {
